@@ -600,6 +600,8 @@ MUTANTS = [
     Mutant('zip-checks-mutation (repair twin)', ZIP, "        plan = _plan(stmt.target, stmt.iterable)\n        if plan is None:\n            return super()._visit_for(stmt, ctx)\n        # Recursively",
            "        plan = _plan(stmt.target, stmt.iterable)\n        if plan is None or _stores_into_lists(stmt.body, IndexedAssign):\n            return super()._visit_for(stmt, ctx)\n        # Recursively", 'C08.G1',
            'consulting a store fact about the body satisfies the rule', expect='silent'),
+    Mutant('fusion-chain-tail-unmasked', REDUCE, "            self._visit_expr(arg, ctx if i < 2 else None)\n            for i, arg in enumerate(e.args)", "            self._visit_expr(arg, ctx)\n            for i, arg in enumerate(e.args)", 'C08.S1',
+           'finding F42 before its repair (ReduceFusion): `a < b < any([xs[i] > 0 for i in range(10)])` raises IndexError after fusion'),
     Mutant('gensym-unseeded', REDUCE, 'self.gensym = Gensym(reserved=def_use.names())', 'self.gensym = Gensym()', 'C08.F3'),
     Mutant('fixed-temp-name', ZIP, "            src = self.gensym.fresh('_src')\n            ctx.stmts.append(Assign(src, None, arg, None))", "            src = NamedId('_src')\n            ctx.stmts.append(Assign(src, None, arg, None))", 'C08.F2'),
     Mutant('nested-temporaries-shared', FOR_UNROLL, "        if nested_gen:\n            copy = RenameTarget.apply_block(\n                body, {g: self.gensym.refresh(g) for g in nested_gen}\n            )\n        else:\n            copy = clone_block(body)", "        copy = clone_block(body)", 'C08.F3'),
